@@ -196,7 +196,7 @@ fn scale_strategy() -> impl Strategy<Value = ScaleCase> {
 fn run(ctx: &Ctx) {
     // Scale cases run in every shard; they are all the unoptimised extra shard runs.
     if ctx.profile == "unopt" {
-        ctx.run_cases("layout-scale", ctx.tier.pick(240, 2_400), scale_strategy(), check_scale);
+        ctx.run_cases("layout-scale", ctx.tier.pick(240, 1_200), scale_strategy(), check_scale);
         return;
     }
     ctx.run_cases("layout-scale", ctx.share(ctx.tier.pick(1_600, 16_000)), scale_strategy(), check_scale);
